@@ -761,3 +761,44 @@ def run(ck):
     from . import c01
     c01.r6(ck, rule="C02-R3")      # the context counts anchoring and trimming rest on are counted from the line markers
     r4(ck)
+    r6_offset_bookkeeping(ck)
+
+
+def r6_offset_bookkeeping(ck, rule="C02-R6"):
+    """"As a first guess, it takes the line number mentioned for the hunk, plus or minus any offset used in applying the previous
+    hunk": the offset a hunk is recorded with is its position minus the line its header states for the side that is matched, and the
+    value handed to the next trial is that offset of the hunk just applied - not a sum over the earlier ones, not the other side's."""
+    prog = ck.prog
+    tah = ck.anchor("libpatch::patch::try_apply_hunk")
+    am = ck.anchor("FilePatch::<'a, &'a [u8]>::apply_modify")
+    if tah is None or am is None:
+        return
+    n = 0
+    for bb, idx, s in tah.stmts():
+        rv = s["rv"] if s["k"] == "assign" else None
+        if rv is None or rv["k"] != "agg" or rv.get("variant") != "Applied" or "offset" not in (rv.get("fields") or []) or tah.blocks[bb]["cleanup"]:
+            continue
+        n += 1
+        e = df.operand_expr(tah, rv["ops"][rv["fields"].index("offset")])
+        line = df.operand_expr(tah, rv["ops"][rv["fields"].index("line")]) if "line" in rv["fields"] else None
+        while isinstance(e, tuple) and e and e[0] == "field" and e[2] == 0 and isinstance(e[1], tuple) and e[1][0] == "bin":
+            e = e[1]
+        ok = isinstance(e, tuple) and e[0] == "bin" and e[1].startswith("Sub") and e[2] == line and df.is_call(e[3], "::remove_target_line") and \
+            not df.mentions(e, lambda x: df.is_call(x, "::add_target_line"))
+        ck.require(ok, rule, "recorded offset = position - line stated for the side being matched",
+                   "a hunk is recorded with offset %s: the next hunk's first guess (stated line + this offset) starts from a wrong place" % df.show(e, 120),
+                   tah.where(s), ok_detail=df.show(e, 100))
+    ck.floor(rule, "Applied reports built in try_apply_hunk", n, 1)
+    offs = [l for l, nm in am.names.items() if nm == "last_hunk_offset"]
+    m = 0
+    for l in offs:
+        for dd in df.defs_of(am).all(l):
+            if dd[0] != "stmt" or not cfg.innermost_loop_of(am, dd[1]):
+                continue
+            m += 1
+            rv = dd[3]["rv"]
+            e = df.rvalue_expr(am, rv)
+            ok = rv["k"] == "use" and isinstance(e, tuple) and e[0] == "field" and e[2] == "offset" and isinstance(e[1], tuple) and e[1][0] == "downcast" and e[1][2] == "Applied"
+            ck.require(ok, rule, "the offset handed to the next trial is the offset of the hunk just applied",
+                       "last_hunk_offset is set to %s" % df.show(e, 120), am.where(dd[3]), ok_detail=df.show(e, 80))
+    ck.floor(rule, "updates of the previous offset in apply_modify", m, 1)
